@@ -10,13 +10,13 @@ HOOK_COMMITS = ["d9913d3", "8e2e077"]
 TEXT = {
     "C01": ("exploration", "5 C01",
             "Runtime monitoring: a harness-defined RefCnt pointer with a ledger (no event on a destroyed object, no 0->1 count, no destruction while the harness holds a handle) observes the real crate under a seeded token-passing scheduler (random / PCT / adversary strategies at every shared-memory step point, quarantine and address-reuse allocation) and under real parallelism with delay fuzzing; AddressSanitizer on Tp(real) and std Arc. Held on the executions reported in the evidence, nothing more.",
-            "ledger monitor on instrumented RefCnt pointer + schedule fuzzing (token scheduler) + AddressSanitizer"),
+            "ledger monitor on an instrumented RefCnt pointer under a seeded token scheduler / delay fuzzing + AddressSanitizer, ThreadSanitizer, Miri, valgrind memcheck"),
     "C02": ("exploration", "5 C02",
             "Conservation law strong + occupied debt slots == containers + owned handles + live guards checked for every object at quiescent points (all threads parked by the harness, guards still held), all slots empty / control idle / no writers after the join, no leak, no double destruction; LeakSanitizer as an independent coarser witness.",
-            "quiescent-point invariant monitor (ledger + node-list hook) + LeakSanitizer"),
+            "quiescent-point invariant monitor (conservation law over ledger + node-list hook) + LeakSanitizer, Miri, valgrind memcheck"),
     "C03": ("exploration", "5 C03",
             "Boundary-recorded operation histories (unique value ids, SeqCst stamps) of every execution are checked for linearizability against a sequential pointer-cell model, per container, by an exact frontier search (budget exhaustion = inconclusive).",
-            "offline linearizability checking of recorded histories"),
+            "offline linearizability checking of recorded histories (token-scheduled, free-running, under Miri)"),
     "C04": ("exploration", "5 C04",
             "Chain oracle over write histories (each value handed back at most once, unique successor) plus the linearizability check with final value and the ledger's conservation / leak check for overwritten values.",
             "history monitor: chain + conservation oracle"),
@@ -31,7 +31,7 @@ TEXT = {
             "guard identity monitor + ledger + AddressSanitizer"),
     "C12": ("exploration", "5 C12",
             "Per-container linearizability with provenance (a value returned by container A must have been stored in A), several containers sharing threads and values stored in several containers, writers of one container walking nodes of readers of another (help.other_storage path required).",
-            "per-container history checking with provenance"),
+            "per-container history checking with provenance + kind-tag monitor on two pointee kinds"),
 }
 
 TEXT.update({
